@@ -18,7 +18,7 @@ use serde_json::{json, Value};
 pub const RULE: &str = "proptest: 1..6 view-space triangles with coordinates from {0, +-near, +-far, on a side plane, behind the eye, equal to another vertex, sub-pixel offsets, huge (<= 1000 x near), uniform}, \
 perspective (focal 0.1..10, near 1e-2..1e2, far/near <= 1000) or orthographic projection built by the library, targets 1x1..64x64 with every viewport sub-rectangle shape, \
 all face_cull x depth_sort x depth_test x color_write x depth_write x discard combinations, doors render/Batch/Camera, all target kinds. \
-Non-trivial = writes >= 1 pixel and >= 1 triangle crosses a frustum plane; distinct by scene bit pattern.";
+pixel-grid: vertices exactly on the half-pixel lattice of power-of-two viewports under an orthographic unit box (coincident, collinear and general triangles). Non-trivial = writes >= 1 pixel and >= 1 triangle crosses a frustum plane or has a vertex exactly on a pixel centre; distinct by scene bit pattern.";
 
 fn dims() -> BoxedStrategy<u32> {
     prop_oneof![2 => Just(1u32), 1 => Just(2u32), 3 => 3u32..=16, 3 => 8u32..=64].boxed()
@@ -147,6 +147,36 @@ pub fn scene_strategy(max_tris: usize) -> BoxedStrategy<Scene> {
         .boxed()
 }
 
+/// Scenes whose vertices sit exactly on the half-pixel lattice (pixel corners and centres): power-of-two viewports and an
+/// orthographic unit box make every screen coordinate exact, so spans that start and end on a pixel centre, coincident
+/// edges that round apart by one ulp, and zero-width trapezoids all occur by construction.
+pub fn grid_scene(max_tris: usize) -> BoxedStrategy<Scene> {
+    let pow2 = || prop_oneof![Just(4u32), Just(8u32), Just(16u32), Just(32u32), Just(64u32)];
+    (pow2(), pow2(), 0u8..3, target_kind(true), cfg_any(), (0u8..6, 0u8..6))
+        .prop_flat_map(move |(bw, bh, door, target, cfg, (fx, fy))| {
+            let v = move || (0..=2 * bw, 0..=2 * bh, 0u8..3).prop_map(move |(i, j, k)| [i as f32 / bw as f32 - 1.0, j as f32 / bh as f32 - 1.0, [1.5f32, 2.0, 2.5][k as usize]]);
+            let tri = (v(), v(), v(), 0u8..6).prop_map(|(a, b, c, k)| match k {
+                0 => [a, b, b],
+                1 => [a, a, b],
+                2 => [a, b, [(a[0] + b[0]) / 2.0, (a[1] + b[1]) / 2.0, (a[2] + b[2]) / 2.0]],
+                _ => [a, b, c],
+            });
+            (Just((bw, bh, door, target, cfg, fx, fy)), proptest::collection::vec(tri, 1..=max_tris))
+        })
+        .prop_map(|((bw, bh, door, target, cfg, fx, fy), tris)| {
+            let proj = Proj::Orthographic { lbn: xs([-1.0, -1.0, 1.0]), rtf: xs([1.0, 1.0, 3.0]) };
+            let attrs = tris.iter().enumerate().map(|(i, _)| xs([i as f32, i as f32 + 0.25, i as f32 + 0.5])).collect();
+            if door == 2 {
+                Scene { bw, bh, vp: [0, 0, bw, bh], tris: tris.iter().map(|t| t.map(|v| xs([v[0], v[1], v[2], 1.0]))).collect(), attrs, door: Door::Camera, target, proj: Some(proj), bg_depth: X(0.0), cfg, shader_mode: 0, shared_verts: false, flip: [false, false] }
+            } else {
+                let m = orthographic(pt3(-1.0, -1.0, 1.0), pt3(1.0, 1.0, 3.0));
+                let clip = tris.iter().map(|t| t.map(|v| xs(m.apply(&pt3(v[0], v[1], v[2])).0))).collect();
+                Scene { bw, bh, vp: [0, 0, bw, bh], tris: clip, attrs, door: if door == 0 { Door::Render } else { Door::Batch }, target, proj: Some(proj), bg_depth: X(0.0), cfg, shader_mode: 0, shared_verts: false, flip: [fx == 0, fy == 0] }
+            }
+        })
+        .boxed()
+}
+
 pub fn check(sc: &Scene, obs: &mut Obs) -> Check {
     let mut s = Session::new(sc);
     let all: Vec<usize> = (0..sc.tris.len()).collect();
@@ -212,7 +242,17 @@ pub fn check(sc: &Scene, obs: &mut Obs) -> Check {
     if written > 0 {
         obs.class("writes>=1-pixel");
     }
-    if written > 0 && crossing {
+    // pixel-grid scenes: a vertex exactly on a pixel centre
+    let on_centre = sc.door != Door::Camera && (0..sc.tris.len()).any(|t| {
+        clip64(sc, t).iter().any(|p| {
+            let s = to_screen(sc, *p);
+            p[3] > 0.0 && (s[0] - s[0].floor() - 0.5).abs() < 1e-12 && (s[1] - s[1].floor() - 0.5).abs() < 1e-12
+        })
+    });
+    if on_centre {
+        obs.class("has-vertex-exactly-on-a-pixel-centre");
+    }
+    if written > 0 && (crossing || on_centre) {
         obs.nontrivial(hash_of(&(&sc.tris, sc.vp, sc.bw, sc.bh, sc.cfg.face_cull, sc.cfg.depth_test)));
         if obs.wants_sample() {
             let cc = sc.clone();
@@ -227,6 +267,8 @@ pub fn run(cx: &mut Ctx) {
     let n = cx.n(500_000, 10_000_000);
     let mt = cx.tier.pick(6, 8);
     cx.prop_check("soups", n, move || scene_strategy(mt), |c, obs| check(c, obs));
+    let n = cx.n(300_000, 5_000_000);
+    cx.prop_check("pixel-grid", n, move || grid_scene(4), |c, obs| check(c, obs));
 }
 
 pub fn replay(_sub: &str, case: &Value) -> Check {
